@@ -77,6 +77,8 @@ def confirm(v):
         import re
         mask = lambda s: re.sub(r'dev\.?\d+', 'dev', s or '')
         return mask(outs[0]) != mask(outs[1]), 'flow %s under %s -> %r ; under %s -> %r' % (v['case'], e1, outs[0], e2, outs[1])
+    if v['what'] == 'git':
+        return confirm_git(v)
     req = request_of(v)
     if req is None:
         return False, 'no replay for %s' % v['what']
@@ -92,6 +94,27 @@ def confirm(v):
                 break
     desc = '%s %s under %s -> %r ; under %s -> %r' % (v['what'], {k: v[k] for k in ('pattern', 'ts', 'input', 'schema_text', 'vars') if k in v}, e1, show(r1), e2, show(r2))
     return show(r1) != show(r2), desc
+
+
+def confirm_git(v):
+    """the real extraction on a real repository built from the counterexample, in several fresh processes (per-process
+    hasher keys cannot be set from outside) and under the two environments"""
+    import gitlib
+    e1, e2 = envs_of(v)
+    for ann in (False, True):
+        desc = gitlib.desc_of_world(v['world'], annotated=ann)
+        d, hs = gitlib.build_repo(desc)
+        try:
+            outs = []
+            for n in range(12):
+                e = dict(e1 if n % 2 == 0 else e2, VERIF_NONCE=str(n))
+                r = drv(e).call(op='git_vcs', path=d, fmt=v['fmt'])
+                outs.append(json.dumps({k: r.get(k) for k in ('ok', 'data', 'vars', 'vars_err', 'err', 'panic')}, sort_keys=True))
+                if outs[-1] != outs[0]:
+                    return True, 'git extraction on tags=%s fmt=%s differs between processes: %s  vs  %s' % (v['world']['tags'], v['fmt'], outs[0][:300], outs[-1][:300])
+        finally:
+            gitlib.remove(d)
+    return False, 'git extraction on tags=%s: identical in 12 processes (%s)' % (v['world']['tags'], v['detail'])
 
 
 def main():
@@ -122,6 +145,9 @@ def main():
     cands += ck.absorb('rendering of schemas with timestamp components: same text in every process', ex, bounds=dict(configs=len(rend)), expect_tags=['two_runs', 'same_output'])
     ex = engine.explore('c14', 'path_flow', flows, jobs=ck.jobs, deadline=time.time() + (900 if quick else 3600))
     cands += ck.absorb('flow pipeline twice on the same inputs and clock: same output', ex, bounds=dict(configs=len(flows)), expect_tags=['two_runs', 'same_output'])
+    gargs = c14.git_args(ck.tier)
+    ex = engine.explore('c14', 'path_git', gargs, jobs=ck.jobs, deadline=time.time() + (600 if quick else 2400))
+    cands += ck.absorb('git extraction (zerv\'s side, git stubbed) twice on the same repository: same facts in every process', ex, bounds=dict(configs=len(gargs)), expect_tags=['two_runs', 'same_output'])
     seen = set()
     for v in cands:
         key = json.dumps(v, sort_keys=True, default=str)
